@@ -68,6 +68,10 @@ def history(ctx, case):
             ctx.check('name and role never change', c.name() == name and c.is_server() is role)
         ctx.check('plugin bookkeeping: exactly the open addresses are known', sorted(w.plugin.connections.keys()) == sorted('gdb_conn:' + hex(ADDRS[r[0]]) for r in ref if r[1]))
         ctx.check('no Error: line', not any('Error' in e for e in w.err.items))
+        for i, c in enumerate(w.manager.connections()):
+            news = [x for x in w.out.items if x.startswith('New ') and x.endswith(' connection ' + c.name())]
+            closed = [x for x in w.out.items if x.startswith('Closed ') and x.endswith(' connection ' + c.name())]
+            ctx.check('each connection is announced once and reported closed exactly when it was destroyed (once)', len(news) == 1 and len(closed) == (0 if ref[i][1] else 1))
 
 
 def twin(ctx, case):
